@@ -92,6 +92,8 @@ EXTRA_ENGINES = [
   "kind_free_text": "growth beyond the listed properties: TLA+ specification of the real Engine launch/termination/emission pipeline (run, kill at every point, launch failure, task exit, restart, shutdown, snapshot overtaking), checked with TLC and bound both ways to the real experiment.runtime.engine.Engine on a deterministic rx world; also contract-tests harness/ctl.py's FakeEngine (the trust base of C01/C02) against the real Engine. Run with ./check G01 --tier quick|thorough (evidence/G01.json); not a property check."},
  {"name": "SchedulerGrowth", "path": "/verif/spec/Scheduler.tla", "serves_properties": ["C01", "C02", "C05", "C12", "C16"],
   "kind_free_text": "growth of Scheduler.tla beyond the listed properties: ExternalKill (killController/cleanUp at any time), restart from a later stage, sleep/wake-up (postponed finishedChecks replayed in order), memoization answers, DoWhile at run time (iteration slots, placeholders, condition true/false/garbage); 16 further invariants / action properties model-checked by TLC; real Controller runs in which the environment kills, sleeps and wakes at random turns (also inside postMortemCheck / Engine.restart) are trace-validated. Run with ./check G02 --tier quick|thorough (evidence/G02.json); C01/C02 run a second model with ExternalKill and kill one real schedule in five."},
+ {"name": "ExperimentLifecycle", "path": "/verif/spec/ExperimentLifecycle.tla", "serves_properties": ["C14", "C20"],
+  "kind_free_text": "growth beyond the listed properties (G03): TLA+ state machine of elaunch's Setup/Run/finalisation and the status.txt document; TLC model checking (safety + liveness, repaired vs. code variants, named deviations); the real elaunch.py __main__ block executed from its AST on a deterministic world, every status version recorded and trace-validated under 16 repair combinations, TLC terminal outcomes compared with the real final status. Run with ./check G03 --tier quick|thorough (evidence/G03.json); not a property check."},
 ]
 
 
@@ -101,7 +103,7 @@ def main():
          "hooks": {"guard": "ST4SD_RUNTIME_CORE_VERIF", "enable": "no source hooks exist: observation/control is done from the harness process by replacing module attributes (DESIGN.md 3.8); nothing to enable",
                    "baseline_off_cmd": BASE, "source_commits": [], "add_only": True},
          "engines": [], "checks": [], "not_applicable": [],
-         "notes": "All checks: ./check <id> --tier quick|thorough; exit 0 held / 1 VIOLATION / 2 machinery failure. See DESIGN.md. Growth checks beyond the listed properties: ./check G01 (EngineLifecycle), ./check G02 (Scheduler extensions) when present."}
+         "notes": "All checks: ./check <id> --tier quick|thorough; exit 0 held / 1 VIOLATION / 2 machinery failure. See DESIGN.md. Growth checks beyond the listed properties: ./check G01 (EngineLifecycle), ./check G02 (Scheduler extensions), ./check G03 (ExperimentLifecycle), further G0x as listed under engines."}
     engines = {}
     for pid in sorted(CHECKS):
         c = CHECKS[pid]
